@@ -194,6 +194,63 @@ def run(chk):
         if res[0].shape != res[1].shape or np.abs(res[0] - res[1]).max() > 2e3 * eps:
             chk.fail("unique-differs", f"{method}: unique=True differs from unique=False by {np.abs(res[0] - res[1]).max():.2e}", info)
 
+    # ---- (c2) the convenience drivers with GUESSED parameters (parameters=None, a tolerance given): unique=True changes only the
+    # cost -- the same guessed time grid / process-tensor length and time step, states within the guessed accuracy ---------------
+    import warnings as _w
+    for it in range(4 if thorough else 2):
+        o = [[1.0, 1.0, -0.5], [0.5, 0.0, 0.5], [1.0, 0.0]][(it + rng.randrange(3)) % 3]
+        d = len(o)
+        a = np.array([[rng.gauss(0, 1) + 1j * rng.gauss(0, 1) for _ in range(d)] for _ in range(d)])
+        H = (a + a.conj().T) / 4
+        r = a @ a.conj().T
+        rho0 = r / np.trace(r)
+        corr_ = oqupy.PowerLawSD(alpha=0.1, zeta=1, cutoff=2.0, cutoff_type="exponential", temperature=0.2)
+        tol_ = rng.choice([0.05, 0.02])
+        driver = ["tempo_compute", "pt_tempo_compute"][it % 2]
+        info = {"kind": "guessed-parameters", "driver": driver, "o": o, "tolerance": tol_}
+        chk.search_cases += 1
+        chk.count("api_guessed_" + driver)
+        chk.case(info, ("guessed", driver, tuple(o), tol_))
+        out = []
+        # what the driver asks guess_tempo_parameters for (start, end, tolerance, the system) and what it gets: recorded through
+        # a wrapper in the modules that call it
+        import oqupy.tempo as _tm
+        import oqupy.pt_tempo as _pm
+        real_guess, asked = _tm.guess_tempo_parameters, []
+
+        def rec_guess(*a_, **k_):
+            g_ = real_guess(*a_, **k_)
+            asked[-1].append((tuple(x for x in a_ if isinstance(x, (int, float))), sorted((kk, vv) for kk, vv in k_.items() if isinstance(vv, (int, float))),
+                              (g_.dt, g_.dkmax, g_.epsrel)))
+            return g_
+        try:
+            _tm.guess_tempo_parameters = _pm.guess_tempo_parameters = rec_guess
+            with _w.catch_warnings():
+                _w.simplefilter("ignore")
+                for unique in (False, True):
+                    asked.append([])
+                    bath_ = oqupy.Bath(np.diag(o).astype(complex), corr_)
+                    if driver == "tempo_compute":
+                        dyn = quiet(oqupy.tempo_compute, oqupy.System(H), bath_, rho0, 0.0, 1.0, tolerance=tol_, unique=unique, progress_type="silent")
+                        out.append((list(dyn.times), np.array(dyn.states)))
+                    else:
+                        pt = quiet(oqupy.pt_tempo_compute, bath_, 0.0, 1.0, tolerance=tol_, unique=unique, progress_type="silent")
+                        dyn = quiet(oqupy.compute_dynamics, oqupy.System(H), initial_state=rho0, process_tensor=pt, progress_type="silent")
+                        out.append((list(dyn.times) + [pt.dt, float(len(pt))], np.array(dyn.states)))
+        except Exception as ex:
+            chk.fail("unique-raises", f"{driver} with guessed parameters raises {ex!r}", info)
+            continue
+        finally:
+            _tm.guess_tempo_parameters = _pm.guess_tempo_parameters = real_guess
+        if len(asked) == 2 and [x[2] for x in asked[0]] != [x[2] for x in asked[1]]:
+            chk.fail("unique-differs", f"{driver}(parameters=None, tolerance={tol_}): with unique=True the guessed parameters (dt, dkmax, epsrel) come out "
+                     f"different: {asked[1]} against {asked[0]} with unique=False", info)
+        elif out[0][0] != out[1][0]:
+            chk.fail("unique-differs", f"{driver}(parameters=None, tolerance={tol_}): unique=True gives another time grid ({len(out[1][0])} entries, second {out[1][0][1]:.4g}) "
+                     f"than unique=False ({len(out[0][0])} entries, second {out[0][0][1]:.4g})", info)
+        elif np.abs(out[0][1] - out[1][1]).max() > 5 * tol_:
+            chk.fail("unique-differs", f"{driver}(parameters=None, tolerance={tol_}): unique=True differs from unique=False by {np.abs(out[0][1] - out[1][1]).max():.2e}", info)
+
     # ---- (d) the representatives handed to influence_matrix by the library's own glue (exact) --------------------
     c02.glue_check(chk, 18 if thorough else 9, force_unique=True,
                    spectra=[[0.5, 0.5, -1.0], [1.0, 1.0, 2.0], [0.0, 0.0, 1.0, 3.0], [1.0, 2.0, 2.0], [0.0, 1.0]])
